@@ -11,9 +11,11 @@ Sources modelled (the model follows the code that exists, including its defects)
 The store is `Proj → PState`.  A handler is a list of `Guard`s followed by an `Effect`.
 Every guard except `revisionGlobal` and `sessionGlobal`, and every effect except
 `detachSessionGlobal`, reads / writes only the state of the one project the request
-resolved to.  The three exceptions are what the pinned code does
-(`revisions.Get`, `Channel.Detach`, `Channel.Refresh` take a bare id) and are the
-listed findings of C13.
+resolved to.  `sessionGlobal` / `detachSessionGlobal` are what the code does
+(`Channel.Detach`, `Channel.Refresh` take a bare session id) and are the listed finding of
+C13.  `revisionGlobal` is what `YorkieService.GetRevision` did before /repo commit ddb0dfd3
+(`revisions.Get` took a bare revision id); no handler of the table uses it any more, it is
+kept for `oldGetRevision` and the witness theorem about the repaired defect.
 -/
 namespace Yorkie.Access
 
@@ -165,7 +167,7 @@ inductive Guard
   | docKeyFree         -- documents.CreateDocument: key must not exist
   | schemaByName       -- schemas.GetSchema(s) / RemoveSchema (project.ID, name)
   | revisionOfProject  -- FindRevisionInfoByID + `revision.ProjectID != project.ID` (revisions.Restore, admin)
-  | revisionGlobal     -- revisions.Get(revisionID): NO project comparison            (finding)
+  | revisionGlobal     -- revisions.Get(revisionID): NO project comparison (GetRevision before ddb0dfd3; unused)
   | sessionGlobal      -- Channel.Detach / Channel.Refresh(sessionID): NO project      (finding)
   | docRemoved         -- packs.Purge: only a removed document
   | projectAndRole     -- projects.ProjectAndRole(user, project_name): owner or member
@@ -380,7 +382,7 @@ def yorkieHandlers : List (String × Handler) := [
   ("WatchDocument",         ⟨.apiKey, [activeClient, verifyAccess, docByRef], .noop⟩),
   ("WatchChannel",          ⟨.apiKey, [activeClient, verifyAccess], .noop⟩),
   ("CreateRevision",        ⟨.apiKey, [verifyAccess, docByRef], write⟩),
-  ("GetRevision",           ⟨.apiKey, [docByRef, verifyAccess, activeClient, revisionGlobal], .noop⟩),
+  ("GetRevision",           ⟨.apiKey, [docByRef, verifyAccess, activeClient, revisionOfProject], .noop⟩),
   ("ListRevisions",         ⟨.apiKey, [docByRef, verifyAccess, activeClient], .noop⟩),
   ("RestoreRevision",       ⟨.apiKey, [docByRef, verifyAccess, activeClient, revisionOfProject], write⟩),
   ("AttachChannel",         ⟨.apiKey, [verifyAccess, activeClient], attachChannel⟩),
@@ -444,6 +446,12 @@ def clusterHandlers : List (String × Handler) := [
   ("GetChannelCount", ⟨.peer, [], .noop⟩),
   ("InvalidateCache", ⟨.peer, [], .noop⟩)
 ]
+
+/-- `YorkieService.GetRevision` as it was before /repo commit ddb0dfd3 ("fix: GetRevision must
+not return a revision of another document"): the revision was loaded by its bare id. Not part
+of the table; only `Props/C13.lean: getRevision_fixed_witness` speaks about it. -/
+def oldGetRevision : Handler :=
+  ⟨.apiKey, [.docByRef, .verifyAccess, .activeClient, .revisionGlobal], .noop⟩
 
 def handlersOf : Svc → List (String × Handler)
   | .yorkie => yorkieHandlers | .admin => adminHandlers | .cluster => clusterHandlers
